@@ -116,6 +116,9 @@ pub fn install_panic_hook() {
         } else {
             "?".to_string()
         };
+        if std::env::var_os("MC_DEBUG").is_some() {
+            eprintln!("panic at {}: {}", loc, msg);
+        }
         LAST_PANIC.with(|p| *p.borrow_mut() = Some((loc.clone(), msg.clone())));
         let mut g = GLOBAL_PANICS.lock().unwrap();
         if g.len() > 10_000 {
